@@ -474,6 +474,19 @@ def run_a1(h):
             made = info.get('sym') or info.get('ref_sym')
             if made:
                 act['made_sym'] = made
+        elif not accepted and act['a'] == 'derived_type' and \
+                act.get('auto_ref') and act.get('items'):
+            # the symbol the library would have generated for the reference
+            # unit of the rejected type: it must stay unknown, too
+            try:
+                from quantity.term import Term
+                define_as = decl.build_clsdef(env, act['items'],
+                                              act['style'])
+                would = str(Term([(c.ref_unit, e) for c, e in define_as]))
+                if would and would not in st.model.units:
+                    act['made_sym'] = would
+            except Exception:       # noqa: only widens the observation
+                pass
         actions.append(act)
     return actions
 
